@@ -3022,6 +3022,11 @@ impl Parser {
         rx.into_iter().zip(fl).map(|((r, lazy), f)| (r, lazy, f)).collect()
     }
 
+    /// whether the lexer start state of row 0 may contain the skip lexeme
+    pub fn verif_allow_initial_skip(&self) -> bool {
+        self.state.grammar.lexer_spec().allow_initial_skip
+    }
+
     pub fn verif_state(&self) -> VerifState {
         let s = &self.state;
         let num_rows = s.num_rows();
